@@ -289,8 +289,10 @@ func (w *World) DrawTxKind(t *rapid.T, kind string, from int, nonce uint64, bal 
 	case "votedao":
 		s.Type = types.TxType_GOVERNANCE
 		s.Recipient = []byte(types.AergoSystem)
-		id := rapid.SampledFrom([]string{"BPCOUNT", "STAKINGMIN", "GASPRICE", "NAMEPRICE", "bpcount", "NOSUCH"}).Draw(t, "daoid")
-		val := rapid.SampledFrom([]string{"3", "13", "1000000000000000000", "50000000000", "0", "x"}).Draw(t, "daoval")
+		// skewed towards one issue and towards values that are the same number spelt differently: distinct
+		// candidates of one tally that tie whenever their voters' stakes are equal
+		id := rapid.SampledFrom([]string{"BPCOUNT", "BPCOUNT", "BPCOUNT", "STAKINGMIN", "GASPRICE", "NAMEPRICE", "bpcount", "NOSUCH"}).Draw(t, "daoid")
+		val := rapid.SampledFrom([]string{"3", "13", "013", "03", "+13", "13 ", "1000000000000000000", "50000000000", "0", "x"}).Draw(t, "daoval")
 		s.Payload = callInfo("v1voteDAO", id, val)
 	case "name-create":
 		s.Type = types.TxType_GOVERNANCE
